@@ -92,6 +92,9 @@ type failingDest struct {
 	failFrom int64
 	pending  int64
 	full     bool
+	// failNames: OpenFile of these names fails (the background write of that entry), nothing else does; the failing calls
+	// gather like those of a full disk
+	failNames map[string]bool
 }
 
 type failingFile struct {
@@ -116,6 +119,14 @@ func (d *failingDest) tick() error {
 }
 func (d *failingDest) Open(name string) (hackpadfs.File, error) { return d.fs.Open(name) }
 func (d *failingDest) OpenFile(name string, flag int, perm hackpadfs.FileMode) (hackpadfs.File, error) {
+	if d.failNames[name] {
+		atomic.AddInt64(&d.pending, 1)
+		deadline := time.Now().Add(30 * time.Millisecond)
+		for atomic.LoadInt64(&d.pending) < int64(len(d.failNames)) && atomic.LoadInt64(&d.pending) < 3 && time.Now().Before(deadline) {
+			time.Sleep(200 * time.Microsecond)
+		}
+		return nil, &hackpadfs.PathError{Op: "injected", Path: name, Err: errInjected}
+	}
 	if err := d.tick(); err != nil {
 		return nil, err
 	}
@@ -355,6 +366,66 @@ func runC13(r *Rng, n int, replay string) {
 			c.fail("pubsub: a Wait(k) that was registering while Emit(k) ran is still blocked 2 s after the Emit: lost wake-up", "pubsub:gap:lost-wakeup")
 		}
 		cancel()
+		emitC(c)
+	}
+	// ---- (a2) the reader's end against its model: an archive of small files (every write is a background write), a chosen
+	// subset of which fails; nothing else fails.  Done() must fire, and whether an error is reported is what EVERY
+	// interleaving of the model says.
+	for t := 0; t < 14 && id < n; t++ {
+		k := 1 + t%6
+		var es []tEntry
+		for i := 0; i < k; i++ {
+			d := make([]byte, 10+37*i)
+			for j := range d {
+				d[j] = byte(i + j)
+			}
+			es = append(es, tEntry{name: fmt.Sprintf("w%d", i), perm: 0o644, data: d})
+		}
+		fail := map[string]bool{}
+		var flags []string
+		for i := 0; i < k; i++ {
+			f := r.Intn(5) < 2 || (t%4 == 3) // some runs: everything fails
+			if t%5 == 0 {
+				f = false
+			}
+			if f {
+				fail[es[i].name] = true
+			}
+			flags = append(flags, cBool(f))
+		}
+		dest := &failingDest{fs: newMem().(*mem.FS), failAt: -1, failNames: fail}
+		c := &Case{Kind: "workers", Check: "C13_workers_check", CType: "C13_workers_case"}
+		c.Cells = []string{fmt.Sprintf("workers/k%d/fail%d", k, len(fail))}
+		hdr := fmt.Sprintf("archive of %d small files, the background writes of %d of them fail", k, len(fail))
+		c.Text = []string{hdr}
+		tfs, err := hptar.NewReaderFS(context.Background(), bytes.NewReader(buildTar(es)), hptar.ReaderFSOptions{UnarchiveFS: dest})
+		if err != nil {
+			c.fail(hdr+": NewReaderFS: "+err.Error(), "workers:new")
+			emitC(c)
+			continue
+		}
+		select {
+		case <-tfs.Done():
+			uerr := tfs.UnarchiveErr()
+			c.Text = append(c.Text, fmt.Sprintf("UnarchiveErr=%v", uerr))
+			if len(fail) > 0 && uerr == nil {
+				c.fail(hdr+": no error is reported", "workers:silent")
+			}
+			for _, e := range es {
+				f, oerr := tfs.Open(e.name)
+				if oerr == nil {
+					var buf bytes.Buffer
+					_, _ = io.Copy(&buf, f)
+					_ = f.Close()
+					if fail[e.name] || !bytes.Equal(buf.Bytes(), e.data) {
+						c.fail(fmt.Sprintf("%s: Open(%q) succeeds with %d of %d bytes (its write failed: %v)", hdr, e.name, buf.Len(), len(e.data), fail[e.name]), "workers:partial")
+					}
+				}
+			}
+			c.Coq = cPair(cList(flags), cBool(uerr != nil))
+		case <-time.After(10 * time.Second):
+			c.fail(hdr+": Done() did not fire within 10 s of the end of the stream", "workers:done-stuck")
+		}
 		emitC(c)
 	}
 	// ---- (b) end to end ----
